@@ -1,4 +1,5 @@
 """Generator (Tor's side of the world), the Python statement of C07/C08/C09 and run_cases for the live-state properties."""
+import copy
 from harness import common, tstate
 from harness.common import Result
 
@@ -120,7 +121,7 @@ class World:
         return None
 
 
-def gen_case(rng, *, n_ops, listeners=True, waits=True, attach=False, weird=False, attacher_first=False, via=False):
+def gen_case(rng, *, n_ops, listeners=True, waits=True, attach=False, weird=False, attacher_first=False, via=False, reenter=False):
     """a history Tor can emit, interleaved with API calls; object ids are predicted the way objects are created
     (an id that is not live gets a new object)"""
     w = World(rng)
@@ -326,6 +327,9 @@ def gen_case(rng, *, n_ops, listeners=True, waits=True, attach=False, weird=Fals
                 live_oids = list(live_s.values())
                 o = rng.choice(live_oids) if live_oids and rng.random() < 0.85 else rng.randrange(n_s)
                 ops.append(['cs', o])
+            if reenter and rng.random() < 0.5 and ops and ops[-1][0] in ('wb', 'wc', 'cc', 'cs'):
+                # the same request made again from inside the callback of this one
+                ops[-1] = [ops[-1][0] + 'r', ops[-1][1]]
         elif r < 0.92:
             ops.append(['ack', rng.random() < 0.85])
         elif attach and not via:
@@ -342,6 +346,8 @@ def gen_case(rng, *, n_ops, listeners=True, waits=True, attach=False, weird=Fals
                 ops.append(['att', None])
                 attacher = None
     case.setdefault('in_h', True)
+    if reenter:
+        settle(case)
     return case
 
 
@@ -699,16 +705,114 @@ def spec_trace(case):
     return {'steps': steps, 'cmds': sp.cmds}
 
 
+NESTED = {'ccr': 'cc', 'csr': 'cs', 'wbr': 'wb', 'wcr': 'wc'}
+
+
+def expand_case(case):
+    """A request repeated from inside its own callback (`ccr`, `csr`, `wbr`, `wcr`) is, for the model and for the statement, the
+    plain request followed by a second plain request placed where the first one completes: a close asked for again while the
+    object's CLOSED / FAILED / DETACHED line is being processed shares the pending close, i.e. it behaves as one made just
+    before that line; everything else (completion by an acknowledgement, or at once; when_built / when_closed) as one made
+    just after the operation that completed the first.  -> (case with plain ops, group[j] = index of the original op that
+    expanded op j belongs to) or (case, None) when there is nothing to expand."""
+    if not any(op[0] in NESTED for op in case['ops']):
+        return case, None
+    sp = Spec()
+    for op in case.get('pre') or []:
+        sp.op(op)
+    for l in case.get('snap_c') or []:
+        sp.op(['circ', l, []])
+    for l in case.get('snap_s') or []:
+        sp.op(['strm', l, [], None])
+    marked = {}
+    xops, groups = [], []
+
+    def emit(op, g):
+        sp.outs = []
+        sp.op(op)
+        xops.append(op)
+        groups.append(g)
+    for g, op in enumerate(case['ops']):
+        if op[0] in NESTED:
+            plain = [NESTED[op[0]], op[1]]
+            marked[sp.next_d] = plain
+            op = plain
+        trial = copy.deepcopy(sp)
+        trial.outs = []
+        try:
+            trial.op(op)
+        except (KeyError, ValueError, IndexError):
+            xops.append(op)
+            groups.append(g)
+            continue
+        done = [e[1] for e in trial.outs if e[0] == 'f' and e[1] in marked]
+        before = [d for d in done if op[0] in ('circ', 'strm') and marked[d][0] in ('cc', 'cs')]
+        for d in before:
+            emit(marked.pop(d), g)
+        emit(op, g)
+        for d in done:
+            if d in marked:
+                emit(marked.pop(d), g)
+    xc = dict(case, ops=xops)
+    xc['_unsettled'] = bool(marked) and bool(sp.pending)
+    return xc, groups
+
+
+def settle(case):
+    """a repeated request must have had its chance before the final flush (which is one step for the model): acknowledge what
+    is outstanding at the end of the operations while a first request could still complete by it"""
+    for _ in range(40):
+        xc, groups = expand_case(case)
+        if groups is None or not xc.get('_unsettled'):
+            break
+        case['ops'].append(['ack', True])
+    return case
+
+
+def merge_groups(steps, groups, n_ops, outs_key='outs'):
+    """steps: [before the ops] + one per expanded op + [flush] -> one per original op; the outputs of a group are concatenated
+    and put into a canonical order (Deferreds handed out first, runs of completions by Deferred number)"""
+    if groups is None:
+        return steps
+    out = [steps[0]]
+    for g in range(n_ops):
+        members = [steps[1 + j] for j, gg in enumerate(groups) if gg == g and 1 + j < len(steps) - 1]
+        if not members:
+            out.append({outs_key: [['impossible-here']]})
+            continue
+        m = dict(members[-1])
+        m[outs_key] = canon_group([o for t in members for o in t[outs_key]]) if len(members) > 1 else members[0][outs_key]
+        if 'cmds' in m:
+            m['cmds'] = [c for t in members for c in t['cmds']]
+        out.append(m)
+    out.append(steps[-1])
+    return out
+
+
+def canon_group(outs):
+    """inside a group only: Deferreds handed out, then everything else in order, then the completions by Deferred number
+    (where exactly inside the processing of a line a repeated request lands is not part of any statement)"""
+    ds = [o for o in outs if o[0] == 'd']
+    fs = sorted(o for o in outs if o[0] == 'f')
+    return ds + [o for o in outs if o[0] not in ('d', 'f')] + fs
+
+
 def make_run_cases(tagger, project):
     """`project(spec_or_view_trace)` keeps the part of the observations the property speaks about"""
     def run_cases(cases, drv, tier):
         common.quiet_twisted()
         impls = [tstate.run_impl(c) for c in cases]
+        expanded = [expand_case(c) for c in cases]
+        for (xc, groups), c, im in zip(expanded, cases, impls):
+            if groups is not None:
+                multi = {g for g in set(groups) if groups.count(g) > 1}
+                for g in multi:
+                    im[1 + g]['outs'] = canon_group(im[1 + g]['outs'])
         outs, spans = None, []
         if drv is not None:
             lines = []
-            for c in cases:
-                ls, marks = tstate.driver_lines(c)
+            for xc, _ in expanded:
+                ls, marks = tstate.driver_lines(xc)
                 spans.append((len(lines), len(ls), marks))
                 lines += ls
             outs = drv.run(lines)
@@ -717,12 +821,15 @@ def make_run_cases(tagger, project):
             model = corr_ok = None
             if outs is not None:
                 a, n, marks = spans[k]
-                model = tstate.canon_trace(tstate.parse_model(outs[a:a + n], marks, c))
+                model = tstate.canon_trace(merge_groups(tstate.parse_model(outs[a:a + n], marks, c), expanded[k][1], len(c['ops'])))
                 corr_ok = tstate.canon_trace(im) == model
             in_h = c.get('in_h', True)
             spec = view = prop_ok = None
             if in_h:
-                spec = project(spec_trace(c))
+                st_ = spec_trace(expanded[k][0])
+                if expanded[k][1] is not None and len(st_['steps']) == len(expanded[k][0]['ops']) + 2:
+                    st_ = dict(st_, steps=merge_groups(st_['steps'], expanded[k][1], len(c['ops'])))
+                spec = project(st_)
                 iv = {'steps': [{'outs': t['outs'], 'view': impl_view(t['dump'])} for t in im], 'cmds': [x for t in im for x in t['cmds']]}
                 view = project(iv)
                 view['steps'] = view['steps'][:len(spec['steps'])]
